@@ -284,11 +284,19 @@ Section Flat.
         k' <-- remap_item_kind ord cf f t sk ;;; upd_if existing (if_set_export name k') in
     match assoc name (i_exports ex) with
     | Some tk =>
-      r1 <-- sub_fa cf t sk tk ;;;
-      if is_ok r1 then remapped_set (ty_of sk) (ty_of tk)
-      else r2 <-- sub_af cf t tk sk ;;; must AEMismatchExport r2 ;;; do_remap
+      match nested_pair tk sk existing with
+      | Some (target_id, source_id) =>
+        merge_interface ord cf f target_id t source_id ;;; remapped_set (ty_of sk) (ty_of tk)
+      | None =>
+        r1 <-- sub_fa cf t sk tk ;;;
+        if is_ok r1 then
+          if replaceable (ty_of sk) (ty_of tk) then remapped_set (ty_of sk) (ty_of tk) else ret tt
+        else r2 <-- sub_af cf t tk sk ;;; must AEMismatchExport r2 ;;; do_remap
+      end
     | None => do_remap
     end.
+  Lemma nested_pair_leaf tk sk e : leafk sk = true -> nested_pair tk sk e = None.
+  Proof. destruct sk as [[| | | | |]| | | | |]; try discriminate; destruct tk; reflexivity. Qed.
   Lemma merge_interface_S f existing t i :
     merge_interface ord cf (S f) existing t i =
     (merge_interface_used_types ord cf f existing t i ;;;
@@ -383,22 +391,31 @@ Section Flat.
     destruct (assoc name exs) as [tk|] eqn:Ea.
     - (* the export exists already *)
       destruct (ls_flat _ _ _ _ L) as [ND Hall]. destruct (Hall name tk (assoc_in _ _ _ Ea)) as [Lt [tg [Ht Rt]]].
+      rewrite (nested_pair_leaf tk sk existing Ls) in H.
       apply bindM_ok in H as [r1 [c1 [H1 H]]].
       destruct (sub_fa_leaf t c sk tk r1 c1 ts tg Ct (ls_inv _ _ _ _ L) Ls Lt Hs Ht H1) as [Ec1 [I1 Ok1]].
       destruct (is_ok r1) eqn:Er1.
       + (* source <: target accepted: nothing changes but the remap table *)
-        unfold remapped_set in H. injection H as <-. specialize (Ok1 eq_refl). subst tg.
+        specialize (Ok1 eq_refl). subst tg.
         assert (Tc1 : c_types c1 = c_types c) by (rewrite Ec1; reflexivity).
+        assert (Hset : exists rm, c' = with_remapped c1 rm /\ RInv Col (with_remapped c1 rm) /\
+                                  forall i0, rm_get (TInterface i0) rm = rm_get (TInterface i0) (c_remapped c1)).
+        { destruct (replaceable (ty_of sk) (ty_of tk)).
+          - unfold remapped_set in H. injection H as <-. eexists. split; [reflexivity|]. split.
+            + apply RInv_set; [apply (mi_rinv _ I1)|]. rewrite Tc1. eapply entry_ok_leaf; eauto.
+            + intros i0. rewrite rm_get_ins_other; auto.
+              destruct sk as [[| |v| | |]|fi| | | |v]; try discriminate Ls; discriminate.
+          - apply ret_ok in H as [_ ->]. exists (c_remapped c1). split; [destruct c1; reflexivity|]. split; auto.
+            intros k0 k1 Hk. apply (mi_rinv _ I1 k0 k1 Hk). }
+        destruct Hset as [rm [-> [HR Hnoif]]].
         exists exs. split; [|split; [|split; [|split; [|split]]]].
         * split; cbn [c_types with_remapped].
-          -- split; cbn [c_types c_remapped c_chk with_remapped]; [apply (mi_tag _ I1) | | apply (mi_cache _ I1)].
-             apply RInv_set; [apply (mi_rinv _ I1)|]. rewrite Tc1. eapply entry_ok_leaf; eauto.
+          -- split; cbn [c_types c_remapped c_chk with_remapped]; [apply (mi_tag _ I1) | exact HR | apply (mi_cache _ I1)].
           -- rewrite Tc1. apply (ls_get _ _ _ _ L).
           -- rewrite Tc1. apply (ls_flat _ _ _ _ L).
         * split; cbn [c_types c_imports c_ifaces c_remapped with_remapped]; rewrite ?Tc1; auto using ext_refl;
             try (rewrite Ec1; reflexivity).
-          intros i0. rewrite rm_get_ins_other; [rewrite Ec1; reflexivity|].
-          destruct sk as [[| |v| | |]|fi| | | |v]; try discriminate Ls; discriminate.
+          intros i0. rewrite Hnoif. rewrite Ec1. reflexivity.
         * reflexivity.
         * exists tk. split; auto. cbn [c_types with_remapped]. now rewrite Tc1.
         * intros n k tr Hn Hu. exists k. split; auto. cbn [c_types with_remapped]. now rewrite Tc1.
